@@ -430,6 +430,15 @@ fn case(proto: Proto, layer: Layer) -> BoxedStrategy<ExpectCase> {
           // a caller-defined claim type whose serialised form is not the plain {key: value}: siblings next to its own
           // member (the own member is what counts); its value under ANOTHER member name, or no member at all (such an
           // expectation cannot be met: the token is refused)
+          // a string that a normalising / case-folding comparison would take for the token's (full-width, Kelvin sign, long s,
+          // decomposed accents, variation selectors): another value
+          15 => match &cur {
+            Value::String(t) => match gen::confusable(t, *form) {
+              Some(c2) => typed(&k, &json!(c2), *form),
+              None => typed(&k, &cur, *form),
+            },
+            other => typed(&k, other, *form),
+          },
           12 => ClaimSpec::Shaped(k.clone(), json!({ k.clone(): cur, "sibling": v })),
           13 => ClaimSpec::Shaped(k.clone(), json!({ KEYS[pick(*ki ^ 0x5555, KEYS.len())]: cur, format!("{k}-alias"): cur })),
           14 => ClaimSpec::Shaped(k.clone(), if *form % 2 == 0 { json!({}) } else { cur.clone() }),
